@@ -188,3 +188,57 @@ Proof.
   destruct (num_sorted _ _ _ _ Hn) as (l & Hm & Hs & Hf). exists l. split; [exact Hm|]. split; [exact Hs|].
   eapply Forall_impl; [|exact Hf]. cbv beta. intros a Ha. lia.
 Qed.
+
+(* ---- the primary key of a WITHOUT ROWID table: a column repeated under the same collation counts once ---- *)
+Local Open Scope list_scope.
+Definition same1 (a b : icolS) : bool := same_index_columns [a] [b].
+
+Lemma dedup_pk_spec pk : forall uniq,
+  (forall i j x y, nth_error uniq i = Some x -> nth_error uniq j = Some y -> i <> j -> same1 x y = false) ->
+  let r := dedup_pk pk uniq in
+  (forall i j x y, nth_error r i = Some x -> nth_error r j = Some y -> i <> j -> same1 x y = false) /\
+  (forall c, In c pk \/ In c uniq -> exists d, In d r /\ same1 d c = true) /\
+  (exists added, r = uniq ++ added /\ forall d, In d added -> In d pk).
+Proof.
+  induction pk as [|co pk IH]; intros uniq Hu; cbn [dedup_pk].
+  - split; [exact Hu|]. split.
+    + intros c [[]|Hc]. exists c. split; [exact Hc|]. unfold same1. apply same_refl.
+    + exists []. rewrite app_nil_r. split; [reflexivity|intros d []].
+  - destruct (existsb (fun have => same_index_columns [have] [co]) uniq) eqn:E.
+    + destruct (IH uniq Hu) as (A & B & C). split; [exact A|]. split.
+      * intros c [[<-|Hc]|Hc]; [|apply B; left; exact Hc|apply B; right; exact Hc].
+        apply existsb_exists in E. destruct E as (h & Hh & Hs). destruct (B h (or_intror Hh)) as (d & Hd & Hdh).
+        exists d. split; [exact Hd|]. unfold same1 in *. eapply same_trans; eassumption.
+      * destruct C as (added & -> & Ha). exists added. split; [reflexivity|]. intros d Hd. right. apply Ha. exact Hd.
+    + assert (Hu' : forall i j x y, nth_error (uniq ++ [co]) i = Some x -> nth_error (uniq ++ [co]) j = Some y -> i <> j -> same1 x y = false).
+      { assert (Hn : forall h, In h uniq -> same1 h co = false).
+        { intros h Hh. destruct (same1 h co) eqn:S; [|reflexivity]. exfalso.
+          assert (X : existsb (fun have => same_index_columns [have] [co]) uniq = true) by (apply existsb_exists; exists h; split; [exact Hh|exact S]). congruence. }
+        intros i j x y Hi Hj Hij.
+        destruct (Nat.lt_ge_cases i (length uniq)) as [Li|Li]; destruct (Nat.lt_ge_cases j (length uniq)) as [Lj|Lj].
+        - rewrite nth_error_app1 in Hi, Hj by assumption. eapply Hu; eassumption.
+        - rewrite nth_error_app1 in Hi by assumption. rewrite nth_error_app2 in Hj by assumption.
+          destruct (j - length uniq)%nat as [|k] eqn:Ek; cbn in Hj; [|destruct k; discriminate]. inversion Hj; subst.
+          apply Hn. eapply nth_error_In. exact Hi.
+        - rewrite nth_error_app2 in Hi by assumption. rewrite nth_error_app1 in Hj by assumption.
+          destruct (i - length uniq)%nat as [|k] eqn:Ek; cbn in Hi; [|destruct k; discriminate]. inversion Hi; subst.
+          unfold same1. rewrite same_sym. apply Hn. eapply nth_error_In. exact Hj.
+        - rewrite nth_error_app2 in Hi, Hj by assumption.
+          destruct (i - length uniq)%nat as [|k] eqn:Ek; cbn in Hi; [|destruct k; discriminate].
+          destruct (j - length uniq)%nat as [|k'] eqn:Ek'; cbn in Hj; [|destruct k'; discriminate]. lia. }
+      destruct (IH (uniq ++ [co]) Hu') as (A & B & C). split; [exact A|]. split.
+      * intros c [[<-|Hc]|Hc]; [apply B; right; apply in_or_app; right; left; reflexivity|apply B; left; exact Hc|apply B; right; apply in_or_app; left; exact Hc].
+      * destruct C as (added & -> & Ha). exists (co :: added). split; [rewrite <- app_assoc; reflexivity|].
+        intros d [<-|Hd]; [left; reflexivity|right; apply Ha; exact Hd].
+Qed.
+
+(* the key as interpreted: pairwise different (name, collation), every written column represented, in the written order *)
+Theorem dedup_pk_ok pk :
+  let r := dedup_pk pk [] in
+  (forall i j x y, nth_error r i = Some x -> nth_error r j = Some y -> i <> j -> same1 x y = false) /\
+  (forall c, In c pk -> exists d, In d r /\ same1 d c = true) /\
+  (forall d, In d r -> In d pk).
+Proof.
+  destruct (dedup_pk_spec pk [] ltac:(intros i j x y H; destruct i; discriminate H)) as (A & B & (added & E & C)).
+  split; [exact A|]. split; [intros c Hc; apply B; left; exact Hc|]. intros d Hd. cbn in E. rewrite E in Hd. apply C. exact Hd.
+Qed.
